@@ -5,6 +5,7 @@ import (
 	"encoding/json"
 	"fmt"
 	"os"
+	"strings"
 	"testing"
 
 	"pgregory.net/rapid"
@@ -76,5 +77,35 @@ func TestDebugC29Units(t *testing.T) {
 			o := sp.parse(context.Background(), 0, u.head+x+u.tail, 0, nil)
 			fmt.Printf("%s %q err=%v handler=%v events=%d\n", name, x, o.Err, o.Errors, len(o.Events))
 		}
+	}
+}
+
+func TestDebugC21Rejects(t *testing.T) {
+	if os.Getenv("VERIF_DEBUG") == "" {
+		t.Skip()
+	}
+	gen := rapid.Custom(c21Gen)
+	counts := map[string]int{}
+	for i := 0; i < 300; i++ {
+		c := gen.Example(1000 + i)
+		u := batch.Unit{Name: "g", TM: c.render("g"), Adapter: typedAdapter, RunPkg: "ast"}
+		res := batch.Generate(&u)
+		key := "ok"
+		if res.CompileErr != nil {
+			msg := res.CompileErr.Error()
+			if i := strings.Index(msg, ": "); i > 0 {
+				msg = msg[i+2:]
+			}
+			key = firstWords(c17Num.ReplaceAllString(msg, "N"), 7)
+		} else if res.GenErr != nil {
+			key = "generr " + firstWords(res.GenErr.Error(), 8)
+		}
+		if len(c.Interfaces) > 0 {
+			key = "[iface] " + key
+		}
+		counts[key]++
+	}
+	for k, v := range counts {
+		fmt.Println(v, k)
 	}
 }
